@@ -196,6 +196,7 @@ def tdStepLine (s : TD) : List String → TD × String
   | ["loopexit", "accept"] => tdRun s .acceptExit fun _ => "ok"
   -- a context loop ends because the thread group stopped, or (environment) because it failed
   | ["loopexit", "bg"] => tdRun s (if s.tgClosed then .bgExit else .bgFail) fun _ => "ok"
+  | ["envclosel"] => tdRun s .envCloseL fun _ => "ok"
   | ["recv"] => tdRun s .runRecv fun _ => "ok"
   | ["lclose"] => tdRun s .runCloseL fun _ => "ok"
   -- the number of peers the sweep finds in the map is the real `len(s.peers)` under `s.mu`
